@@ -26,6 +26,28 @@ Theorem C14_one_sync_one_async : forall version tr svcs s r,
 Proof. exact one_sync_one_async. Qed.
 Print Assumptions C14_one_sync_one_async.
 
+(* the snippet index hands the sync client's docstring the rpc's synchronous sample and the asyncio client's docstring the
+   asyncio sample, for every rpc — internal ones, whose tags end in _internal, included *)
+Theorem C14_index_slot_spec : forall version tr svcs s r,
+  names_distinct svcs -> In s svcs -> In r (sv_rpcs s) ->
+  let added := generate_sample_specs version tr svcs in
+  (mem_str "grpc" tr = true ->
+     index_get added (sv_name s) (rp_name r) true = Some (mk_spec version s "grpc" r) /\
+     index_get added (sv_name s) (rp_name r) false = Some (mk_spec version s "grpc-async" r)) /\
+  (mem_str "grpc" tr = false -> mem_str "rest" tr = true ->
+     index_get added (sv_name s) (rp_name r) true = Some (mk_spec version s "rest" r) /\
+     index_get added (sv_name s) (rp_name r) false = None).
+Proof. exact index_slot_spec. Qed.
+Print Assumptions C14_index_slot_spec.
+
+Example C14_example_index_internal :
+  option_map sp_tag (index_get (generate_sample_specs "v1" ["grpc"; "rest"] ex_svcs) "Archive" "GetArchive" true)
+    = Some "archive-library_v1_generated_Archive_GetArchive_sync_internal" /\
+  option_map sp_tag (index_get (generate_sample_specs "v1" ["grpc"; "rest"] ex_svcs) "Archive" "GetArchive" false)
+    = Some "archive-library_v1_generated_Archive_GetArchive_async_internal".
+Proof. exact ex_index_internal. Qed.
+Print Assumptions C14_example_index_internal.
+
 (* the tag determines host shortname, service, rpc, sync/async and internal-ness when no component contains an underscore *)
 Theorem C14_tag_injective : forall version svcs s r k s' r' k',
   tag_unambiguous version svcs = true -> In s svcs -> In r (sv_rpcs s) -> In s' svcs -> In r' (sv_rpcs s') ->
